@@ -36,6 +36,9 @@ def one_stream(ctx, data, kinds, m, lines, pending, opts='random'):
         replay = dict(replay0, chunks=[c.hex() for c in chunks], form=form, as_ints=as_ints)
         ctx.count('form_' + form + ('_ints' if as_ints else ''))
         if err is not None:
+            if err.startswith('SharedResult'):
+                ctx.violation('C05/result-list-shared-between-calls', err, replay)
+                return
             ctx.violation('C05/decoder-raised', 'on_data raised %s' % err, replay)
             return
         fc = flat_canon(flat)
